@@ -38,8 +38,16 @@ def _connless_max(src, rel, consts):
     m = re.search(r"payload\.len\(\)\s*>\s*([^{]+)\{", body)
     if not m:
         raise exlib.ExtractError("%s: `payload.len() > <limit>` test not found in write_connless_packet" % rel)
+    # the limit may be spelt with private constants of the file (e.g. a named `MAX_PAYLOAD_CONNLESS`)
+    env = dict(consts)
+    for k in re.finditer(r"\bconst\s+([A-Z][A-Z0-9_]*)\s*:", src):
+        if k.group(1) not in env:
+            try:
+                env[k.group(1)] = _const(src, k.group(1), rel, env)
+            except exlib.ExtractError:
+                pass
     try:
-        return int(eval(m.group(1), {"__builtins__": {}}, dict(consts)))
+        return int(eval(m.group(1), {"__builtins__": {}}, env))
     except Exception as ex:
         raise exlib.ExtractError("%s: cannot evaluate connless limit %s: %r" % (rel, m.group(1).strip(), ex))
 
